@@ -144,3 +144,103 @@ pub fn run(ctx: &Ctx) -> Report {
     }
     rep
 }
+
+/// `c05-cost`: the cost of single builtin calls.  Real `BuiltinCosts::to_ex_budget(fun, args, semantics)`
+/// vs the Lean cost function under the SPECIFICATION's measure recipe (`spec:` keys: a difference is a
+/// failing input of the property) and under the recipe regenerated from the source (impl model).
+pub fn cost(ctx: &Ctx) -> Report {
+    use crate::gen::{gen_const, modelled_builtins};
+    use std::rc::Rc;
+    use uplc::ast::{Constant, Type};
+    use uplc::machine::runtime::BuiltinSemantics;
+    use uplc::machine::value::Value;
+    let mut rep = Report::new(
+        "c05-cost",
+        "every modelled builtin × argument tuples with sizes at word boundaries (byte strings of 0,1,7,8,9,15,16,17,… bytes, \
+         integers around 2^63/2^64/2^127/2^128, lists of 0..5 items, literal counts up to 2^70, strings with 1–4-byte \
+         characters) and 1 in 6 arguments of a wrong type, under semantics A–E and default + random cost vectors: \
+         BuiltinCosts::to_ex_budget vs the Lean cost function under the specification's measure table and under the \
+         regenerated one. Non-trivial = distinct (builtin, arguments, semantics)",
+    );
+    let per = arg_usize("--n", if ctx.thorough { 2500 } else { 200 });
+    let mut rng = Prng::new(ctx.seed ^ 0xC057);
+    let variants = cek::variants();
+    let table = modelled_builtins();
+    let kinds = [K::Int, K::Bytes, K::Str, K::Bool, K::Unit, K::Data, K::ListData, K::ListInt, K::PairDD, K::ListPairDD];
+    let sem_of = |v: &Variant| BuiltinSemantics::for_language_and_protocol(&v.lang, v.proto);
+    let mut reqs: Vec<String> = vec![];
+    let mut real: Vec<String> = vec![];
+    let mut keys: Vec<String> = vec![];
+    for (vi, v) in variants.iter().enumerate() {
+        for custom in [false, true] {
+            let mut cm_rng = Prng::new(ctx.seed ^ (vi as u64 * 7919) ^ 0xABCD);
+            let mk = || if custom { random_cost_model(v, &mut cm_rng.clone()) } else { cek::default_costs(v) };
+            reqs.push(cek::costmodel_request(&mk()));
+            real.push("ok".into());
+            keys.push(format!("costmodel:{}:{}", v.name, custom));
+            let cm = mk();
+            for (f, ks, _) in table.iter() {
+                for i in 0..per {
+                    if (i + vi) % 5 != 0 && !(vi == 4 && !custom) {
+                        continue; // every case under E/default, a fifth under the others
+                    }
+                    let args: Vec<Constant> = ks
+                        .iter()
+                        .map(|k| {
+                            let k = if *k == K::Any { *rng.pick(&kinds) } else if rng.chance(1, 6) { *rng.pick(&kinds) } else { *k };
+                            match k {
+                                K::Bytes if rng.chance(1, 2) => Constant::ByteString(vec![7u8; *rng.pick(&[0usize, 1, 7, 8, 9, 15, 16, 17, 23, 24, 25, 63, 64, 65])]),
+                                K::Int if rng.chance(1, 3) => {
+                                    let e = *rng.pick(&[62u32, 63, 64, 65, 70, 126, 127, 128, 129]);
+                                    let x = crate::gen::pow2(e) + num_bigint::BigInt::from(rng.range(-2, 2));
+                                    Constant::Integer(if rng.chance(1, 2) { x } else { -x })
+                                }
+                                K::ListInt if rng.chance(1, 2) => Constant::ProtoList(Type::Integer, (0..rng.below(6)).map(|j| Constant::Integer(num_bigint::BigInt::from(j as i64))).collect()),
+                                _ => gen_const(&mut rng, k),
+                            }
+                        })
+                        .collect();
+                    let vals: Vec<Value> = args.iter().map(|c| Value::Con(Rc::new(c.clone()))).collect();
+                    let sem = sem_of(v);
+                    let f2 = *f;
+                    let out = crate::report::guarded(std::panic::AssertUnwindSafe(|| cm.builtin_costs.to_ex_budget(f2, &vals, sem)));
+                    let canon = match out {
+                        Ok(Ok(b)) => format!("ok {} {}", b.mem, b.cpu),
+                        Ok(Err(_)) => "err".to_string(),
+                        Err(msg) => {
+                            rep.fail(&format!("cost-panic:{:?}:{}", f, args.iter().map(wire::constant).collect::<Vec<_>>().join(" ")), "costing a builtin call panicked", json!({"builtin": format!("{:?}", f), "args": args.iter().map(wire::constant).collect::<Vec<_>>()}), json!({"panic": msg}));
+                            "panic".to_string()
+                        }
+                    };
+                    let argw = args.iter().map(|c| format!("(c {})", wire::constant(c))).collect::<Vec<_>>().join(" ");
+                    let key = format!("{}:{}:{:?}:{}", v.name, if custom { "custom" } else { "default" }, f, argw);
+                    if key.len() > 6000 {
+                        continue;
+                    }
+                    rep.nontrivial.insert(key.clone());
+                    if rep.samples.len() < 6 && i % 37 == 0 {
+                        rep.sample(json!({"builtin": format!("{:?}", f), "semantics": v.name, "args": argw, "cost": canon}));
+                    }
+                    rep.count(&format!("cost:{}", canon.split(' ').next().unwrap_or("?")));
+                    for which in ["spec", "impl"] {
+                        reqs.push(format!("bcost {} {} {:?} {}", which, v.name, f, argw));
+                        real.push(canon.clone());
+                        keys.push(format!("{}:cost:{}", which, key));
+                    }
+                }
+            }
+        }
+    }
+    let model = driver::run(&reqs);
+    rep.evaluations = reqs.len() as u64;
+    for i in 0..reqs.len() {
+        if model[i] == "unmodelled" {
+            rep.count("model:unmodelled");
+            continue;
+        }
+        if model[i] != real[i] {
+            rep.disagree(&keys[i], &reqs[i].chars().take(2500).collect::<String>(), &real[i], &model[i]);
+        }
+    }
+    rep
+}
